@@ -126,6 +126,12 @@ class AbstractGinGameState:
                 f"they do not have {self.cards_dealt} cards! {self.p2_hand}"
             )
 
+        if self.turn.is_first_draw() and not from_discard:
+            raise ValueError(
+                "Cannot draw from the deck on the first turn: "
+                "take the up-card or pass"
+            )
+
         if from_discard:
             card_drawn: str = self.top_of_discard  # type: ignore
             self._add_to_hand(card_drawn)
